@@ -33,7 +33,7 @@ Make(k) == /\ N < MaxObj /\ k \in Kinds /\ k # "Conformer"
 
 EmptyOperandRoutes == {"or_e1", "or_e2", "concat_e1", "concat_e2"}     \* a | empty, empty | a, concatenate(a, empty), concatenate(empty, a)
 (* cells that the deviation makes a copy share with its source *)
-SharedBy(r) == IF "SharedAttribOnEvolve" \in Deviations /\ r \in {"construct", "concat", "or", "join", "upcast", "ensemble_from"} \cup EmptyOperandRoutes
+SharedBy(r) == IF "SharedAttribOnEvolve" \in Deviations /\ r \in {"construct", "concat", "or", "join", "upcast", "ensemble_from", "extend_empty", "extend_list_empty", "append_empty"} \cup EmptyOperandRoutes
                  THEN {"atomattr", "atomattr_e", "atomnest", "bondattr", "bondattr_e", "molnest"} ELSE {}
 
 (* cells of a product of TWO sources that are not defined by the first one: object-level attributes; for a join also the  *)
